@@ -813,6 +813,7 @@ func run(c *vc.Ctx) {
 	runSigRange(c)
 	runMasterList(c)
 	runMultiSigner(c)
+	runHistories(c)
 }
 
 // ------------------------------------------------------------------------------------------------
@@ -1435,6 +1436,23 @@ func replay(c *vc.Ctx, raw json.RawMessage) string {
 			}
 		}
 		return fmt.Sprintf("signers %v -> success=%v stage=%s err=%s", m.Signers, acc, v.Stage, v.Err)
+	case "history":
+		var hc histCase
+		if err := json.Unmarshal(doc.Case, &hc); err != nil {
+			return err.Error()
+		}
+		if len(hc.States) == 0 {
+			return "empty history"
+		}
+		for _, s := range hc.States {
+			if int(s.Prof) >= len(allProfiles) || s.Cert >= nCerts || s.Store >= nStores || s.CS > 4 {
+				return "state out of range"
+			}
+		}
+		histCheck(c, doc.Section, hc.States)
+		v := histRun(hc.States)
+		fr := runPA(concretise(hc.States[len(hc.States)-1]))
+		return fmt.Sprintf("history: %s\nground truth of the last state (violated conditions): %v\nre-used Document: Success=%v stage=%s err=%s panic=%s\nfresh Document:   Success=%v stage=%s err=%s", histString(hc.States), truth(hc.States[len(hc.States)-1]), v.Success, v.Stage, v.Err, v.Panic, fr.Success, fr.Stage, fr.Err)
 	case "state":
 		var sc stateCase
 		if err := json.Unmarshal(doc.Case, &sc); err != nil {
